@@ -115,3 +115,22 @@ Example g_example : gvalid (CharSet_mk 97 122) /\
   M_CharSet_union (CharSet_mk 0 3) (CharSet_mk 5 9) = Some None /\
   M_CharSet_size (CharSet_mk 0 MAX_CHAR) = Some 196608.
 Proof. unfold gvalid, MAX_CHAR. cbn. repeat split; try lia; vm_compute; reflexivity. Qed.
+
+(* inter_list never panics; Some q exactly the characters common to all sets, None when no good
+   character is common to all *)
+Lemma g_inter_list_total a : exists r, M_CharSet_inter_list a = Some r.
+Proof. pose proof (link_inter_list a) as H. destruct (M_CharSet_inter_list a); [eauto | discriminate H]. Qed.
+
+Lemma g_inter_list_some a q : M_CharSet_inter_list a = Some (Some q) ->
+  forall x, x <= MAX_CHAR -> (gmem x q <-> Forall (gmem x) a).
+Proof.
+  intros H x Hx. pose proof (omap2_some _ _ _ _ (link_inter_list a) H) as E.
+  rewrite (inter_list_some (map conv a) (conv q) E x Hx).
+  rewrite Forall_map. reflexivity.
+Qed.
+
+Lemma g_inter_list_none a : M_CharSet_inter_list a = Some None -> forall x, ~ Forall (gmem x) a.
+Proof.
+  intros H x. pose proof (link_inter_list a) as L. rewrite H in L. cbn in L. apply some_inj in L.
+  intros F. apply (inter_list_none (map conv a) (eq_sym L) x). rewrite Forall_map. exact F.
+Qed.
